@@ -258,6 +258,32 @@ def buildnone_flags(ctx, rule, only=None):
     return n
 
 
+def derived_flag_formulas(ctx, rule):
+    """flagbuildnone of a composite is derived from its parts the documented way: all members (Struct, Sequence, LazyStruct), any
+    alternative (Select), both branches (IfThenElse), all cases and the default (Switch), the wrapped construct (Subconstruct)."""
+    M = ctx.model
+    def fb(cls):
+        fi = M.method(cls, "__init__")
+        vals = {N.canon_lids(e["value"]) for p in paths_of(ctx, fi, cls) for e in p.events if e.kind == "SELFWRITE" and e["attr"] == "flagbuildnone"}
+        return fi, vals
+    def agg(v):
+        # all(...) / any(...) of <member>.flagbuildnone over a collection
+        if v[0] == "call" and v[1] in (("free", "all"), ("free", "any")) and len(v[2]) == 1 and v[2][0][0] == "comp":
+            c = v[2][0]
+            if c[2][0] == "attr" and c[2][2] == "flagbuildnone" and c[2][1][0] == "elem" and len(c[3]) == 1 and c[3][0][1] == ():
+                return v[1][1], c[3][0][0]
+        return None, None
+    for cls, want in (("Struct", "all"), ("Sequence", "all"), ("LazyStruct", "all"), ("Select", "any"), ("Switch", "all")):
+        fi, vals = fb(cls)
+        kinds = {agg(v)[0] for v in vals}
+        ctx.ob(rule, fi, bool(vals) and kinds == {want}, "%s.flagbuildnone is %s(member.flagbuildnone ...)" % (cls, want), key="%s flag formula" % cls)
+    fi, vals = fb("IfThenElse")
+    want = N.mk_bool("and", [("attr", ("param", "thensubcon"), "flagbuildnone"), ("attr", ("param", "elsesubcon"), "flagbuildnone")])
+    ctx.ob(rule, fi, vals == {want}, "IfThenElse.flagbuildnone is thensubcon.flagbuildnone and elsesubcon.flagbuildnone (a None object must be buildable whichever branch is taken)", key="IfThenElse flag formula")
+    fi, vals = fb("Subconstruct")
+    ctx.ob(rule, fi, vals == {("attr", ("param", "subcon"), "flagbuildnone")}, "Subconstruct inherits flagbuildnone from the wrapped construct", key="Subconstruct flag formula")
+
+
 def tunnel_checks(ctx, rule):
     M = ctx.model
     # Tunnel
@@ -460,6 +486,7 @@ def run(ctx):
         fb, b = sigs(cls, "_build")
         ctx.ob("C01.R5", fb, a == b, "%s._parse and %s._build have the same summary modulo the direction of the sub-call" % (cls, cls), key="%s identical" % cls)
     buildnone_flags(ctx, "C01.R5")
+    derived_flag_formulas(ctx, "C01.R5")
     ctx.floor("C01.R5", 10 + 8)
 
     # ---------------------------------------------------------------- R6
